@@ -10,7 +10,7 @@ reg('C01', 'exploration',
     'runtime contract (icontract) + reference-model oracle over generated workloads', '4/C01')
 
 reg('C02', 'exploration',
-    'State probe after Fitter construction (distance grid: ends, log-uniform, spacing<=step, fewest points; per-distance model fluxes vs python aperture interpolation, clamp above, refuse below, (1kpc/d)^2) and post-condition on Fitter.fit (chi^2 is the grid minimum, attained at the reported distance; A_V is the clipped 1-parameter optimum there) against a longdouble reference from package truth.',
+    'State probe after Fitter construction (distance grid: ends, log-uniform, spacing<=step, fewest points; the flux table the fitter holds is only recorded) and post-condition on Fitter.fit: the model flux at each distance (python aperture interpolation from package truth, per-band aperture tables, files in mJy/Jy/uJy, clamp above, (1kpc/d)^2) enters through the reference fit, so (chi^2 is the grid minimum, attained at the reported distance; A_V is the clipped 1-parameter optimum there) against a longdouble reference from package truth.',
     TRUST + ' Distance-grid size when L/step is an integer to 1e-9: n or n+1. Ties between distances free. float32 paths compared with stated dex bounds.',
     'runtime state probe + post-condition contract + reference-model oracle over generated workloads', '4/C02')
 reg('C03', 'exploration',
@@ -59,7 +59,7 @@ reg('C08', 'exploration',
     TRUST + ' Degenerate plants (another model within margin) are regenerated and counted.',
     'end-to-end differential monitor with passive contracts', '4/C08')
 reg('C09', 'exploration',
-    'Post-condition contract on FitInfo.filter_table (fires inside the three writers and plot_params_1d/2d) against truth parameter rows by model name; the text written by write_parameters, write_parameter_ranges and extract_parameters is parsed and compared (rank, name, chi2/av/scale, parameter row, n_data, n_fits, min/best/max triples, placeholder) for every parameter-file permutation class, 1..4 columns, additional dictionaries, file/object/list inputs, selectors yielding 0/1/some/all fits.',
+    'Post-condition contract on FitInfo.filter_table (fires inside the three writers and plot_params_1d/2d) against truth parameter rows by model name; what plot_params_1d/2d hand to the axes (histogram polygons, scatter points) is observed and compared with the parameter values of the selected fits; the text written by write_parameters, write_parameter_ranges and extract_parameters is parsed and compared (rank, name, chi2/av/scale, parameter row, n_data, n_fits, min/best/max triples, placeholder) for every parameter-file permutation class, 1..4 columns, additional dictionaries, file/object/list inputs, selectors yielding 0/1/some/all fits.',
     TRUST + ' Printed precision 5e-4; position-encoding parameter values.',
     'runtime contract + output-parsing oracle', '4/C09')
 reg('C10', 'exploration',
@@ -67,11 +67,11 @@ reg('C10', 'exploration',
     TRUST + ' filter_output not driven on records with zero fits; plot_params only in thorough.',
     'event-trace recording + offline trace checker; snapshot comparison of passed objects', '4/C10')
 reg('C13', 'exploration',
-    'snapshot+post-condition contracts on ConvolvedFluxes.interpolate, SED.interpolate and SED.interpolate_variable against a python bisect interpolation (exact at knots, linear between, clamp above, identity untouched; the same request gives the same answer later; table re-assigned / re-sorted between calls; tables without apertures or errors); refusals below the table observed at the call boundary; requests in au/pc/cm and bare AU numbers against tables stored in au or cm.',
+    'snapshot+post-condition contracts on ConvolvedFluxes.interpolate, SED.interpolate and SED.interpolate_variable against a python bisect interpolation (exact at knots, linear between, clamp above, identity untouched; the same request gives the same answer later; table re-assigned / re-sorted between calls; tables without apertures or errors; fluxes in mJy/Jy/uJy with errors in another of these, everything compared in mJy; dropped errors are a violation; SEDs in either wavelength order); refusals below the table observed at the call boundary (any exception); requests in au/pc/cm and bare AU numbers against tables stored in au or cm.',
     TRUST + ' Smallest knot requested only in the table\'s own unit; 0.999*a_max clamp band for the plotting variant.',
     'runtime contracts with snapshots + reference interpolation', '4/C13')
 reg('C16', 'exploration',
-    'Files present afterwards (identified by FILTWAV, not by name), their contents and the returned table for every window (ends below/on/between/above tabulated wavelengths) x every chunk size (via max_ram), exhaustive for n_wav<=3 (quick) / <=5 (thorough); file set must be identical across chunk sizes; windows also in nm/mm/Angstrom, pre-existing convolved/, SEDs in sub-directories; cube packages (with/without uncertainties, aperture-independent and -dependent, named and wavelength filters mixed): a wavelength "filter" selects the nearest tabulated slice.',
+    'Files present afterwards (identified by FILTWAV, not by name), their contents and the returned table for every window (ends below/on/between/above tabulated wavelengths) x a ladder of memory limits reaching every chunk size 1..n_wav (chunking is observed as passes over the SED files, not inferred from the package's formula), exhaustive for n_wav<=3 (quick) / <=6 (thorough); file set must be identical across limits; windows also in nm/mm/Angstrom, pre-existing convolved/, SEDs in sub-directories; cube packages (with/without uncertainties, aperture-independent and -dependent, named and wavelength filters mixed): a wavelength "filter" (in micron, nm, Angstrom or mm) selects the nearest tabulated slice.',
     TRUST + ' Window end on a wavelength: either; empty window: zero files, empty table or exception.',
     'file-effect trace + content oracle, exhaustive small scope over windows x chunk sizes', '4/C16')
 reg('C17', 'exploration',
